@@ -295,11 +295,13 @@ def guards_of(b, target_bb):
             l = t['discr']['place']['l']
             if not t['discr']['place']['p']:
                 ds = [d for d in b.defs_of(l) if d[0] == 'stmt']
+                if len(ds) > 1:     # jump threading copies `d = discriminant(x)`: the copy in this block is the one read here
+                    ds = [d for d in ds if d[1] == bb] or ds
                 if len(ds) == 1 and ds[0][3]['rv']['k'] == 'discr':
                     pl = ds[0][3]['rv']['place']
-                    tested = ('discr', b.access_path({'k': 'copy', 'place': pl}))
+                    tested = ('discr', b.access_path({'k': 'copy', 'place': pl}, at=bb))
         if tested is None:
-            tested = ('val', b.access_path(t['discr']))
+            tested = ('val', b.access_path(t['discr'], at=bb))
         out.append((bb, keep[0][0], keep[0][1], tested))
     return out
 
@@ -314,10 +316,17 @@ def inevitable(b, guards, target_bb):
     return not (r & set(b.return_blocks()))
 
 
-def deep_path(b, op_or_path, max_hops=8):
+def arg_path(site, i):
+    """deep path of the i-th argument of a call, resolved at the call site (reaching definitions)"""
+    return deep_path(site.body, site.args[i], at=site.bb) if i < len(site.args) else None
+
+
+def deep_path(b, op_or_path, max_hops=8, at=None):
     """access_path that also looks through tuple/struct aggregates built in the same body:
     ['agg@bbN.i', 'k', ...] continues with the path of the k-th operand of that aggregate"""
-    ap = op_or_path if isinstance(op_or_path, list) else b.access_path(op_or_path)
+    if op_or_path is None:
+        return None
+    ap = op_or_path if isinstance(op_or_path, list) else b.access_path(op_or_path, at=at)
     for _ in range(max_hops):
         if not ap or not ap[0].startswith('agg@') or len(ap) < 2 or not ap[1].isdigit():
             break
@@ -327,7 +336,7 @@ def deep_path(b, op_or_path, max_hops=8):
         k = int(ap[1])
         if k >= len(ops):
             break
-        inner = b.access_path(ops[k])
+        inner = b.access_path(ops[k], at=int(m.group(1)))
         if inner is None:
             return None
         ap = inner + ap[2:]
@@ -406,11 +415,12 @@ def switch_test(b, bb):
         return None
     if t['discr']['k'] in ('copy', 'move') and not t['discr']['place']['p']:
         ds = [d for d in b.defs_of(t['discr']['place']['l']) if d[0] == 'stmt']
+        ds = [d for d in ds if d[1] == bb] or ds
         # after jump threading the discriminant read may exist in several copies of the same statement
         pls = {json_key(d[3]['rv']['place']) for d in ds if d[3]['rv']['k'] == 'discr'}
         if ds and len(pls) == 1 and all(d[3]['rv']['k'] == 'discr' for d in ds):
-            return ('discr', b.access_path({'k': 'copy', 'place': ds[0][3]['rv']['place']}))
-    return ('val', b.access_path(t['discr']))
+            return ('discr', b.access_path({'k': 'copy', 'place': ds[0][3]['rv']['place']}, at=bb))
+    return ('val', b.access_path(t['discr'], at=bb))
 
 
 def json_key(x):
@@ -465,3 +475,29 @@ def returns_is_variant(b, variant):
             return None
         paths.add(tuple(strip_refs(deep_path(b, g[0][3][1]))))
     return list(paths.pop()) if len(paths) == 1 else None
+
+
+def records_iff_hot_reloaded_and_reloader(b, rec_path='hot_reloading::records::record'):
+    """asset::load_and_record on the normal form: (ok, why, record call).  records::record runs exactly when
+    typ.is_hot_reloaded() is true and cache.reloader() is Some (both tested, nothing else, and then inevitably),
+    with that very reloader."""
+    rc = [c for c in b.calls() if c.callee and c.callee.best == rec_path]
+    if len(rc) != 1:
+        return False, 'shape: exactly one records::record call expected', None
+    rc = rc[0]
+    g = guards_of(b, rc.bb)
+    roots = {'call@bb%d' % c.bb: c.callee.best for c in b.calls() if c.callee}
+    tests = []
+    for x in g:
+        ap = deep_path(b, x[3][1]) or ['?']
+        tests.append((x[2] != 'sw:0' if x[3][0] == 'val' else guard_variant(b, x) == 1, x[3][0], roots.get(ap[0], ap[0]) if len(ap) == 1 else '/'.join(ap)))
+    tests.sort(key=str)
+    want = [(True, 'discr', "anycache::AnyCache::<'a>::reloader"), (True, 'val', 'key::Type::is_hot_reloaded')]
+    if tests != want:
+        return False, 'the load is not recorded exactly when the type is hot-reloaded and the cache has a reloader (conditions found: %s)' % tests, rc
+    if not inevitable(b, g, rc.bb):
+        return False, 'a hot-reloaded load in a cache with a reloader can skip records::record', rc
+    rl = [k for k, v in roots.items() if v.endswith('::reloader')]
+    if arg_path(rc, 0) != [rl[0], 'as:Some', '0']:
+        return False, 'records::record is not given the reloader of this cache', rc
+    return True, '', rc
